@@ -9,7 +9,9 @@ seeds="$@"; [ -z "$seeds" ] && seeds=$(ls seeded | grep -v SWEEP)
 echo "# sweep at repo $(git -C /repo rev-parse --short HEAD), verif $(git rev-parse --short HEAD)" | tee -a seeded/SWEEP.txt
 for s in $seeds; do
   git -C $WT apply "/verif/seeded/$s/patch.diff" || { echo "$s PATCH-DOES-NOT-APPLY"; continue; }
-  out=$(./bin/govc -repo $WT -prop claimed -replays /tmp/sweep_replays.$$ -j ${SWEEP_J:-8} 2>&1)
+  files=$(grep '^+++ b/' "/verif/seeded/$s/patch.diff" | sed 's|^+++ b/||' | grep '\.go$' | tr '\n' ',')
+  # modular verification: only the functions declared in the files the patch touches can change verdict
+  out=$(./bin/govc -repo $WT -prop claimed -files "$files" -replays /tmp/sweep_replays.$$ -j ${SWEEP_J:-8} 2>&1)
   git -C $WT checkout -- .
   n=$(echo "$out" | grep -c "^VIOLATION")
   obs=$(echo "$out" | grep "^VIOLATION" | sed 's/.*obligation=\([^ ]*\).*/\1/' | sed 's/#[0-9]*$//' | sort -u | head -4 | tr '\n' ' ')
